@@ -53,7 +53,12 @@ CaptureWindow ==
     (fr.k = "chk" /\ ~fr.skip /\ fr.pc = "bodycall") =>
        Len(fr.old) = IF FN(fr.f).post = <<>> THEN 0 ELSE Len(FN(fr.f).snap)
 OldIsCaptured ==
-  (emit.e = "cond.in" /\ emit.ph = "post" /\ ~CON(emit.id).noold) => emit.old = [n \in DOMAIN FN(FnOfCon(emit.id)).snap |-> SNP(FN(FnOfCon(emit.id)).snap[n]).val]
+  \* (emit.a is the argument of the call whose postcondition is evaluated: each call sees the values captured for IT,
+  \*  also when calls of the same callable overlap)
+  (emit.e = "cond.in" /\ emit.ph = "post" /\ ~CON(emit.id).noold) =>
+     emit.old = [n \in DOMAIN FN(FnOfCon(emit.id)).snap |->
+                   LET sn == SNP(FN(FnOfCon(emit.id)).snap[n]) IN
+                   sn.val + (IF "byarg" \in DOMAIN sn /\ sn.byarg = 1 THEN emit.a ELSE 0)]
 
 (* ---- C10 / C11 / C12 ---- *)
 \* markers visible to a task are exactly those justified by frames of that task (R1-R4 of the design)
